@@ -363,7 +363,7 @@ def rule_fn_result_sticky(F, ev, R, config, rule="R-FN-RESULT-STICKY"):
                 ok = True
             R.add(rule, config, b.key, "wrapper-error-recorded", ok, "" if ok else msg, wt.get("span"))
         ev = ev_outer
-    R.floor(rule, config, 4, "two Err writes + one rebuild + the recorded wrapper error in partial_deriv")
+    R.floor(rule, config, 3, "at least one Err write, the rebuild and the recorded wrapper error in partial_deriv (pinned tree: 2 + 1 + 1)")
 
 
 # --------------------------------------------------------------------------- #
@@ -492,9 +492,20 @@ def rule_build_guards(F, ev_unused, R, config, rule="R-BUILD-GUARDS"):
         "names not unique")
     # --- check_parameter_count ---------------------------------------------------------
     def arity_ne(c, b, e, s):
+        # the list whose length is compared with the arity is the FUNCTION's parameter list: the only list argument
+        # of a dedicated helper, or — when the check sits in the wrapper constructor itself — its second argument
+        rb = F.bodies.get(b.j.get("root", b.key), b)
+        sl = [("param", rb.key, i + 1) for i, ty in enumerate(rb.j.get("inputs", [])) if ty.startswith("&[")]
+        lists = sl if len(sl) == 1 else []
+        try:
+            from rules_model import wrapper_fn
+            if wrapper_fn(F).key == rb.key:
+                lists = [P2(rb)]
+        except AnchorMissing:
+            pass
         return conj_find(c, lambda f: f[0] == "rel" and f[1] == "Ne" and
                          any(x[0] == "constitem" and x[1].endswith("ARGUMENT_COUNT") for x in (f[2], f[3])) and
-                         any(x[0] == "call" and x[1].endswith("::len") and x[3][0] == P1(b) for x in (f[2], f[3])))
+                         any(x[0] == "call" and x[1].endswith("::len") and x[3][0] in lists for x in (f[2], f[3])))
     chk("IncorrectParameterCount", lambda b: F.bodies.get(b.j.get("root", b.key), b).j.get("impl", {}).get("self_adt") != ADT_MBUILDER, arity_ne, "function parameter list length ≠ arity")
     # --- create_index_mapping ------------------------------------------------------------
     def not_in_model(c, b, e, s):
@@ -570,7 +581,16 @@ def rule_build_guards(F, ev_unused, R, config, rule="R-BUILD-GUARDS"):
     chk("IncorrectParameterCount", lambda b: RB(b).j.get("impl", {}).get("self_adt") == ADT_MBUILDER, init_len,
         "initial guess length ≠ number of model parameters")
     # --- try_into -----------------------------------------------------------------------------
-    ti = lambda b: ADT_UNFINISHED in b.j.get("root", b.key) and b.j.get("root", b.key).endswith("try_into")
+    # the model validator: the function that constructs the SeparableModel value (a TryInto impl, an inherent
+    # conversion it delegates to, …) — found by what it builds, not by its name
+    validators = set()
+    for x in F.bodies.values():
+        if str(x.j.get("impl", {}).get("trait", "")).startswith("std::clone") or str(x.j.get("impl", {}).get("trait", "")).startswith("std::fmt"):
+            continue
+        for _bi, _si, st in x.stmts():
+            if st["k"] == "assign" and st["rv"]["k"] == "agg" and st["rv"].get("adt") == ADT_SEPMODEL:
+                validators.add(x.j.get("root", x.key))
+    ti = lambda b: b.j.get("root", b.key) in validators
     FN = lambda b: ("field", P1(F.bodies[b.j.get("root", b.key)]), "basefunctions")
     NM = lambda b: ("field", P1(F.bodies[b.j.get("root", b.key)]), "parameter_names")
     chk("EmptyModel", ti, lambda c, b, e, s: conj_find(c, lambda f: (lambda t: t is not None and t[3][0] == FN(b))(atom_call(f, "::is_empty", True))), "no basis function")
